@@ -4,6 +4,7 @@ META = {
  "assumptions": A.META["assumptions"] + [
   "thread part: failing pthread calls - lock scripts: up to 2 symbolic failures of pthread_mutex_init / pthread_cond_init / pthread_rwlock_init; thread script: the f-th fallible "
   "pthread call (pthread_key_create, pthread_setspecific, pthread_attr_init/setdetachstate/setinheritsched, pthread_create with EAGAIN or EPERM, pthread_setname_np) fails, f concrete per query",
+  "thread part: keyrace queries use the sequential nested-atomic thread emulation of C05 (a pending thread may run to completion at every model entry of main's first use of the key)",
   "thread part: platform TLS keys are not counted as a leaked resource (p_uthread_local_free documents that it keeps the key); their heap blocks are"],
  "outside": A.META["outside"] + ["thread part: thread stacks and kernel objects behind pthread handles"],
 }
@@ -25,4 +26,11 @@ def queries(tier):
     qs += [utq("harness_f%d" % f) for f in range(1, NF + 1)] + [utq("harness_f7_eperm")]
     qs.append(utq("harness_k0", kf="C20_thread_local_free_leak", extra=["KF_DEMO_LEAK"]))
     qs.append(utq("harness_f9", kf="C20_thread_selfkey_failure", extra=["KF_DEMO"]))
+    # first use of a fresh key raced by main and 1 / 2 threads (preemption depth 1), then everything freed
+    import C05
+    for two, extra in ((False, []), (True, []), (False, ["RACE_LIB"])):
+        q = C05.race(two, 1, extra)
+        q.name = "res_" + q.name
+        q.harness = "harness/C20_thread_keyrace.c"
+        qs.append(q)
     return qs
